@@ -37,6 +37,9 @@ func judgeHandover(sc *Scenario, x *vrt.Execution) []verdict {
 		var prod *TaskCfg
 		for _, d := range t.Deps {
 			p := byName[d]
+			if p.SameAs != "" { // a stage running the task object of another entry: the task's own name and commands count
+				p = byName[p.SameAs]
+			}
 			if outputVar(p) == t.Reads {
 				prod = &p
 			}
@@ -84,6 +87,21 @@ func handoverUnits(res *common.Result, each func(Scenario, int) bool) bool {
 						return
 					}
 				}
+			}
+		}
+		// the producing task is used by two stages one after the other (with and without stage overrides, which
+		// make the scheduler run a copy); the consumer depends on the later one and must see one run's output
+		for _, ov := range []int{0, 1, 2, 3} {
+			p := prod("p.x", 1, "")
+			q := TaskCfg{Name: "q", FailAt: -1, SameAs: "p.x", Deps: []string{"p.x"}}
+			if ov&1 != 0 {
+				p.StageEnv = map[string]string{"WHO": "one"}
+			}
+			if ov&2 != 0 {
+				q.StageEnv = map[string]string{"WHO": "two"}
+			}
+			if each(Scenario{Mode: "pipeline", Tasks: []TaskCfg{p, q, cons("c", p, "q")}}, bound(3)) {
+				return
 			}
 		}
 		// chain: c consumes p, d consumes c's output
